@@ -1,4 +1,5 @@
 import ALock.Lemmas.OnceCell
+import ALock.Atomic.OnceCell
 
 /-!
 # C04 — OnceCell: initialised at most once, and only a complete value is ever visible
@@ -25,8 +26,13 @@ order; `take` between epochs):
 * `C04_set_back_iff` — `set` hands its argument back exactly when its own closure did not run;
 * `C04_take` — `take` empties the cell and a new epoch can begin.
 
-"fully written" (the publication order of `ptr::write` and `store(2, Release)`) and the blocking
-forms are not in this model; see DESIGN.md (memory-ordering table, C04_publication_partial).
+"Fully written" is Part 2 (`ALock.Atomic.Once`): one step = one atomic operation on
+`OnceCell::state` or the plain `ptr::write` of the value, any number of threads, any interleaving,
+release/acquire views.  `C04_interleaved_single` — at most one agent holds the initialisation guard,
+under every interleaving; `C04_publication` — whoever reads `state == Initialized` has the write of
+the stored value in its view (it happens-before every read of the value), given that the store is
+at least `Release` and the loads at least `Acquire`, which `C04_ord_ok` reads off the site table
+extracted from /repo's sources on every run.  The blocking forms are not in these models.
 -/
 
 namespace ALock.Once
@@ -289,3 +295,44 @@ example :
     s.state = 2 ∧ valBy s = 2 ∧ s.dropped.length = 2 ∧ nRun s = 0 := by decide
 
 end ALock.Once
+
+/-! ## Part 2 — every interleaving of the atomic operations; publication -/
+
+namespace ALock.Atomic.Once
+
+/-- the model's steps are the operations the code performs on `OnceCell::state` (generated table) -/
+theorem C04_shape_ok : sites.map Site.shape = expectedShapes := by decide
+
+/-- `store(Initialized)` is at least Release, every load of `state` at least Acquire (generated table) -/
+theorem C04_ord_ok : ords.ok := by unfold Ords.ok; decide
+
+/-- **C04 (one initialiser under every interleaving).** -/
+theorem C04_interleaved_single (l : List Step) :
+    runners (run ords {} l).ags ≤ 1 ∧ ((run ords {} l).state = 1 ↔ runners (run ords {} l).ags = 1) := by
+  have h := run_inv ords C04_ord_ok {} l init_inv
+  by_cases h1 : (run ords {} l).state = 1
+  · have := h.runA h1; exact ⟨by omega, fun _ => this, fun _ => h1⟩
+  · have := h.runB h1; exact ⟨by omega, fun hh => absurd hh h1, fun hh => by omega⟩
+
+/-- **C04 (only complete values are visible).** Under every interleaving, an agent that has read
+`state == Initialized` has the `ptr::write` of the value the cell holds in its view: the write
+happens-before every access through `get`, `wait`, `get_or_init`, … on any thread. -/
+theorem C04_publication (l : List Step) :
+    ∀ a ∈ (run ords {} l).ags, a.seen2 = true →
+      ∃ k, (run ords {} l).cur = some k ∧ k ∈ a.view := fun a ha hs =>
+  ((run_inv ords C04_ord_ok {} l init_inv).seen a ha hs).2
+
+/-- with a relaxed store the reader's view does not contain the write: the model distinguishes -/
+example :
+    let o : Ords := { ords with relStore := false }
+    let s := run o {} [.spawn, .spawn, .cas01 0, .writeVal 0, .store2 0, .load 1]
+    s.cur = some 0 ∧ s.ags.map (·.view) = [[0], []] := by decide
+
+/-- non-vacuity: a failed attempt, a second initialiser, a reader -/
+example :
+    let s := run ords {} [.spawn, .spawn, .spawn, .cas01 0, .cas01 1, .fail 0, .cas01 1, .writeVal 1,
+      .load 2, .store2 1, .load 2, .cas01 0]
+    s.state = 2 ∧ s.cur = some 0 ∧ s.ags.map (·.seen2) = [false, false, true] ∧
+    s.ags.map (·.view) = [[], [0], [0]] := by decide
+
+end ALock.Atomic.Once
